@@ -52,8 +52,8 @@ PROPS['C08'] = dict(level='model_checking',
   ])
 
 PROPS['C19'] = dict(level='model_checking',
-  bounds='T=2 (runner = start + natural completion, stopper), K per harness; symbolic completion channel',
-  outside='create_basic_sender (recursive mutex + weak_ptr control blocks), more than one stopper; detach_on_cancel with the real inplace_stop_source exceeds the engine (value-set growth of the ref-count word), see DESIGN',
+  bounds='T=2 (T=3 for one thorough harness), K per harness: canary watcher vs destroyer; detach_on_cancel completion vs stop (minimal outer stop source); cancellable<Raw>: try_complete vs stop request vs start(), synchronous completion inside start(), stop before start (raw operation handed to exactly one of completer / stop hook); stop_on_request with one external token: start() vs external / receiver stop, two stops, pre-stopped token',
+  outside='create_raw_sender / create_basic_sender (no harness), more than one external token for stop_on_request, detach_on_cancel with the real inplace_stop_source as outer token; the cancellable start()/completion use-after-free is a recorded known finding',
   harnesses=[
     H('detach_min', 'C19_detach2.cpp', ['h_complete', 'h_stop'], 26, opts=dict(prune=1), desc='detach_on_cancel: natural completion racing a stop request (minimal outer stop source; receiver frees the op)'),
     H('canary_vs_watcher', 'C19_canary.cpp', ['h_watcher_side', 'h_canary_side'], 30, desc='canary destruction racing watcher guard/destruction; both objects freed right after their destructors'),
@@ -76,7 +76,7 @@ PROPS['C12'] = dict(level='model_checking',
 
 EV = ['when_all', 'stop_when', 'let_value', 'finally']
 PROPS['C04'] = dict(level='model_checking',
-  bounds='sequential event-order harnesses: <=3 manual leaves with symbolic outcomes, stop request at a symbolic position (before start / between any two completions / never); instruction-level races in T=2 harnesses',
+  bounds='sequential event-order harnesses: <=3 manual leaves with symbolic outcomes, stop request at a symbolic position (before start / between any two completions / never); instruction-level races in T=2 harnesses (when_all / stop_when last completion vs external stop; stop_on_request start vs stop); take_until with an abandoned consumer',
   outside='schedules interleaving at instruction granularity inside the event-order harnesses; take_until/stop_immediately (see C13); task (C10)',
   harnesses=[SEQ('ev_%s_f%d' % (n, f), 'C04_events.cpp', 'h_ev_' + n, opts=dict(params=[f], max_rec=3), desc=n + ': symbolic order of leaf completions and stop request; flags(stop-before-start, leaf0 cancels inline, leaf1 cancels inline)=%d' % f) for n in EV for f in (0, 1, 3, 5, 7) if not (n == 'finally' and f == 5)] +
             [SEQ('wa_inline_cancel', 'C04_events.cpp', 'h_wa_inline_cancel', opts=dict(max_rec=3), desc='when_all: child fails inline while a pending sibling completes with done inside its stop callback')])
@@ -135,14 +135,14 @@ CFGS = [('c++17', ['NDEBUG']), ('c++20', ['NDEBUG']), ('c++17', ['UNDEBUG']), ('
         ('c++17', ['NDEBUG', 'UNIFEX_ENABLE_CONTINUATION_VISITATIONS=1']), ('c++20', ['UNDEBUG', 'UNIFEX_ENABLE_CONTINUATION_VISITATIONS=1'])]
 def cfgname(std, defs): return std.replace('+', 'p') + ('_dbg' if 'UNDEBUG' in defs else '_rel') + ('_vis' if any('VISIT' in d for d in defs) else '')
 PROPS['C20'] = dict(level='translation_validation',
-  bounds='C05 sequential catalogue (10 expression shapes, symbolic leaf outcomes and payloads) under 6 configurations {C++17,C++20} x {NDEBUG, debug+async stacks} x {visitations 0,1}: every configuration must satisfy the same reference oracle on all inputs',
-  outside='gcc-vs-clang differences; coroutine expressions under C++17 (not compiled there); async_trace output format',
+  bounds='C05 sequential catalogue (10 expression shapes, symbolic leaf outcomes and payloads) under 6 configurations {C++17,C++20} x {NDEBUG, debug+async stacks} x {visitations 0,1}: every configuration must satisfy the same reference oracle on all inputs; cross-thread resumption of an awaiting task in the release configuration',
+  outside='gcc-vs-clang differences; coroutine expressions under C++17 (not compiled there); async_trace output format; cross-thread resumption with async stacks enabled (deep tier, no verdict)',
   harnesses=[SEQ('%s_%s' % (n, cfgname(std, defs)), 'C20_cfg.cpp', 'h20_' + n, std=std, defs=defs, extra=(['$REPO/source/async_stack.cpp'] if 'UNDEBUG' in defs else []), desc='%s under %s %s' % (n, std, ' '.join(defs)))
              for (std, defs) in CFGS for n in ['then', 'upon_error', 'upon_done', 'let_value', 'let_error', 'let_done', 'sequence', 'finally', 'materialize', 'just']])
 
 PROPS['C06'] = dict(level='model_checking',
   bounds='manual_event_loop: 1-2 producers + worker (+stopper), T<=3, K per harness, std::mutex/condition_variable modelled exactly (no spurious wake-ups in lost-wake-up queries); trampoline depth 1..3 with up to 6 nested schedules; sequential FIFO/stop-before-run',
-  outside='static_thread_pool with more than one worker, new_thread_context, timed contexts (C07)',
+  outside='static_thread_pool with more than one worker, new_thread_context; of the timed contexts only the no-lost-item clause of timed_single_thread_context (3 timers, sequential)',
   harnesses=[
     H('mel_producer_vs_worker', 'C06_loops.cpp', ['h_worker', 'h_prod_then_stop'], 30, opts=dict(params=[1, 0]), desc='manual_event_loop: enqueue+stop racing the worker going idle: accepted item must run on the worker'),
     H('mel_two_items_fifo', 'C06_loops.cpp', ['h_worker', 'h_prod01', 'h_stopper'], 40, opts=dict(params=[2, 1], prune=1), desc='manual_event_loop: two items from one producer run FIFO on the worker, then stop'),
@@ -162,8 +162,8 @@ PROPS['C11'] = dict(level='model_checking',
 
 PROPS['C09']['harnesses'] += [SEQ('future_drop_m%d_r%d' % (m, r), 'C09_future_drop.cpp', 'h_future_drop', exc=True, opts=dict(params=[m, r], max_visits=200), desc='future<tracked> dropped; leaf %s; result %s the drop' % (['completes later', 'completes with a value inside its stop callback'][m], ['not yet stored before', 'already stored before'][r])) for m in (0, 1) for r in (0, 1)]
 PROPS['C10'] = dict(level='model_checking',
-  bounds='sequential, C++20: a two-level task nesting awaiting an inline leaf with symbolic outcome (value/error/done) and payload',
-  outside='stop requests from other threads at suspension points; scheduler hops; at_coroutine_exit ordering (thorough harness list); gcc coroutine lowering',
+  bounds='sequential, C++20: a two-level task nesting awaiting an inline leaf with symbolic outcome (value/error/done) and payload; at_coroutine_exit order on three exit paths; throwing co_return value; T=2 (release configuration): awaitable resumed on another thread while the suspending thread is still inside await_suspend',
+  outside='stop requests from other threads at suspension points (deep-tier harness, no verdict within 30 min); scheduler hops; gcc coroutine lowering',
   harnesses=[SEQ('task_nested', 'C10_task.cpp', 'h_task_nested', std='c++20', exc=True, extra=['$REPO/source/async_stack.cpp'], opts=dict(max_rec=8, max_visits=200), desc='task<int> parent awaiting task<int> child awaiting a leaf with symbolic outcome')] +
             [SEQ('task_cleanup_o%d' % o, 'C10_task.cpp', 'h_task_cleanup', std='c++20', exc=True, extra=['$REPO/source/async_stack.cpp'], opts=dict(params=[o], max_rec=8, max_visits=200), desc='two at_coroutine_exit actions, exit path %s' % ['return', 'exception', 'done'][o]) for o in (0, 1, 2)] +
             [SEQ('task_retthrow_%d' % c, 'C10_task.cpp', 'h_task_retthrow', std='c++20', exc=True, extra=['$REPO/source/async_stack.cpp'], opts=dict(params=[c], max_rec=8, max_visits=200), desc='co_return of a tracked result whose construction %s' % ('throws' if c else 'succeeds')) for c in (0, 1)] +
